@@ -124,7 +124,12 @@ pub fn case_with(op: &Op, a: &M, la: usize, b: Option<(&M, usize)>, stat: Option
             }
         }
         if !abs.is_empty() && matches.iter().any(|m| *m) {
-            mc::count(if worst_of_tol == 0.0 {
+            // (the shared one-pass `MatrixStats::var` / `std` - C03's known finding - is kept out of the
+            // headroom record: where its cancellation error happens to stay below the tolerance of
+            // an operand whose spread is much larger than the lane's, it "matches" with little headroom)
+            mc::count(if matches!(op.k, K::Var | K::Std) && worst_of_tol > 0.0 {
+                "offset_one_pass_variance_cases_inside_the_spread_tolerance"
+            } else if worst_of_tol == 0.0 {
                 "offset_moment_deviation_none"
             } else if worst_of_tol <= 1e-3 {
                 "offset_moment_deviation_le_1e-3_of_tolerance"
